@@ -20,6 +20,11 @@ def _single_return(fn):
     return None
 
 
+def _plain_self_attr(m, rx):
+    """`return self._x`: a plain accessor keeps its public name in normal forms."""
+    return isinstance(rx, ast.Attribute) and isinstance(rx.value, ast.Name) and m.params and rx.value.id == m.params[0]
+
+
 def render(ctx, fn, e, depth=2):
     """Typed rendering: attribute loads on typed receivers become <Class.attr>; one-line
     predicate methods and properties are inlined (depth-limited)."""
@@ -34,7 +39,7 @@ def render(ctx, fn, e, depth=2):
                         m = cc.methods[e.attr]
                         rx = _single_return(m)
                         overridden = any(e.attr in s.methods for s in ix.subclasses(c, strict=True))
-                        if rx is not None and depth > 0 and not overridden:
+                        if rx is not None and depth > 0 and not overridden and not _plain_self_attr(m, rx):
                             return render(ctx, m, rx, depth - 1)
                         return f"<{cc.name}.{e.attr}>"
                     if e.attr in cc.ann_fields or e.attr in cc.class_vars:
@@ -79,6 +84,18 @@ def render(ctx, fn, e, depth=2):
         return f"({render(ctx, fn, e.left, depth)} {ops.get(type(e.op), '?')} {render(ctx, fn, e.right, depth)})"
     if isinstance(e, ast.Subscript):
         return f"{render(ctx, fn, e.value, depth)}[{render(ctx, fn, e.slice, depth)}]"
+    if isinstance(e, ast.JoinedStr):
+        parts = []
+        for v in e.values:
+            if isinstance(v, ast.Constant):
+                parts.append(str(v.value))
+            elif isinstance(v, ast.FormattedValue):
+                parts.append("{" + render(ctx, fn, v.value, depth) + "}")
+        return "f'" + "".join(parts) + "'"
+    if isinstance(e, ast.IfExp):
+        return f"({render(ctx, fn, e.body, depth)} if {render(ctx, fn, e.test, depth)} else {render(ctx, fn, e.orelse, depth)})"
+    if isinstance(e, (ast.Tuple, ast.List, ast.Set)):
+        return "[" + ",".join(render(ctx, fn, x, depth) for x in e.elts) + "]"
     return unparse(e)
 
 
@@ -129,7 +146,7 @@ def _inline_pred(ctx, fn, e, depth):
             if m is not None and m.kind == "property":
                 if not any(e.attr in s.methods for s in ctx.ix.subclasses(c, strict=True)):
                     rx = _single_return(m)
-                    if rx is not None:
+                    if rx is not None and not _plain_self_attr(m, rx):
                         return m, rx
     return None
 
